@@ -352,7 +352,7 @@ def hop_molecules(ctx):
         m = molgen.parse(smi)
         if m is not None:
             base.append((smi, m))
-    src = molgen.handmade() + molgen.corpus(rng, 60 if ctx.quick else 900)
+    src = molgen.handmade() + molgen.corpus(rng, 60 if ctx.quick else 500)
     for name, m in src:
         base.append((name, m))
         try:
@@ -423,7 +423,7 @@ def hop_stream(ctx):
                     ctx.broke('correspondence', f'hops/{op}_hydrogens', detail)
     # operations without a Lean model of their own: their *results* go through the observer stream (calc/check/cv/totals)
     for op in ('canonicalize', 'standardize', 'kekule', 'thiele'):
-        for name, m in mols[:: (3 if ctx.quick else 1)]:
+        for name, m in mols[:: (3 if ctx.quick else 2)]:
             try:
                 status, res = apply_real(op, m)
             except Exception as e:
@@ -855,7 +855,7 @@ def rdkit_formula_oracle(smi):
 
 def search(ctx):
     """Start at the disagreeing cases and their neighbourhood, then sweep (budgeted)."""
-    budget = 60 if ctx.quick else 300
+    budget = 60 if ctx.quick else 240
     t0 = time.time()
     rng = ctx.rng
     found = set()
@@ -885,12 +885,32 @@ def search(ctx):
             report(mol_oracle(m), c)
         except Exception as e:
             ctx.notes.append(f'search: molecule oracle raised {type(e).__name__}')
+    # every rule of every element in its own environment (exact, with 0..h hydrogens explicit, one neighbour more): the context
+    # in which an edited table entry or a changed rule scan shows first
+    for z in zs:
+        if time.time() - t0 > budget * 0.5 or len(found) >= 40:
+            break
+        try:
+            rules = spec_rules(z)
+        except Exception:
+            continue
+        seen = set()
+        for c, r, v, env, h in rules:
+            base = tuple(sorted(env.elements()))
+            rest = max(v - sum(o for o, _ in base), 0)
+            for b in [base + ((1, 1),) * k for k in range(rest + 1)] + [base + ((1, 6),), base + ((2, 8),)]:
+                if (c, r, b) in seen:
+                    continue
+                seen.add((c, r, b))
+                res = ctx_oracle(z, c, int(r), b)
+                if res:
+                    report(res, {'kind': 'ctx', 'z': z, 'charge': c, 'radical': int(r), 'bonds': [list(x) for x in b]})
     # sweep of the grid (every multiset for the neutral/charged organic atoms, in a seeded order)
     ms = multisets(bond_types(True))
     tasks = [(z, c, r) for z in ORGANIC for c in CHARGES for r in (0, 1)]
     tasks.sort(key=lambda t: (abs(t[1]) + t[2], rng.random()))
     for z, c, r in tasks:
-        if time.time() - t0 > budget * 0.6 or len(found) >= 40:
+        if time.time() - t0 > budget * 0.7 or len(found) >= 40:
             break
         for b in ms:
             res = ctx_oracle(z, c, r, b)
@@ -906,7 +926,7 @@ def search(ctx):
     # operations that write hydrogen counts, on molecules with mixed explicit + implicit hydrogens
     try:
         for name, m in hop_molecules(ctx):
-            if time.time() - t0 > budget * 0.8:
+            if time.time() - t0 > budget * 0.9:
                 break
             for op in ('implicify_hydrogens', 'explicify_hydrogens', 'canonicalize', 'kekule', 'thiele'):
                 try:
